@@ -9,6 +9,7 @@ LEVEL_TEXT = ("Option-product monitoring: every generated tree (with comments at
               "normalize_functions; each output must parse back in that dialect to the tree of the default output up to "
               "comments, identifier quoting flags and function-name case (independent canonical form), must not contain "
               "the line-break sentinel, and with comments=False must not contain any comment text.")
+LEVEL_TEXT += (" Besides the core grammar and the fixed corpus, every dialect's harvested statements (string constants of the repository's dialect test modules, used as vocabulary only) are run in their own dialect.")
 LEVEL_NOTE = "the default single-line output must itself re-parse (otherwise the pair is C01's subject and is skipped)"
 TECHNIQUE = "runtime monitoring: re-parse oracle over the generator-option product"
 RULE = ("core-grammar statements with injected comments x all dialects x sampled option vectors (always the all-defaults "
